@@ -243,3 +243,13 @@ def check(pid, tier, seed):
     rc = verdict.finish()
     common.write_evidence(pid, tier, seed, "exploration", cov, ASSUMPTIONS, time.time() - t0, len(verdict.violations))
     return rc
+
+
+def all_harnesses():
+    exe = harness()
+    return {exe.name: exe}
+
+
+def replay(pid, path):
+    import sys
+    return common.replay(pid, path, sys.modules[__name__])
